@@ -44,3 +44,12 @@ Example C14_rest_names_example :
   map fst (RestDoc.p_params (RestDoc.parse_rest (s2l ":param x: a :param **kw: b :param x: c :param *args: d :type kw: ```dict```")))
   = [s2l "x"; s2l "kw"; s2l "args"].
 Proof. vm_compute. reflexivity. Qed.
+
+(* ---- the Google and NumPy unit readers (Model/GoogleLine.v, Model/NumpyLine.v, compared with the code through parse_docstring each run
+   by C01's check): for EVERY line / unit, a name that is returned carries no blank at either end. *)
+From CDD Require GoogleLine NumpyLine UnitNameProofs.
+Theorem C14_google_numpy_names_stripped :
+  (forall l n t d, GoogleLine.parse_google_unit l = GoogleLine.UOk n t d -> UnitNameProofs.stripped n)
+  /\ (forall u n t d, NumpyLine.parse_numpy_unit u = NumpyLine.NEntry n t d -> UnitNameProofs.stripped n).
+Proof. split; [exact UnitNameProofs.google_name_stripped | exact UnitNameProofs.numpy_name_stripped]. Qed.
+Print Assumptions C14_google_numpy_names_stripped.
